@@ -1,21 +1,37 @@
 import Zc.Model.Basic
 import Zc.Gen.Const
 import Zc.Gen.Shutdown
-/-! # Shutdown (`asyncio.py:223-231`, `_core.py:608-665`, `_engine.py:122-140`, `browser.py:369-375,438,465,719-726`)
+/-! # Shutdown (`asyncio.py:223-231`, `_core.py:608-665`, `_engine.py:122-153`, `browser.py:369-375,438,465,719-726`)
 
 The host as a block machine over the flags that decide whether anything can leave it: `done`, transports
-closed, which timers are armed, which tasks are pending.  What a block *would* emit is part of the block
-(an arbitrary input: the theorems quantify over it); whether it *does* is decided by the generated gates
-(`Gen.Shutdown.*`).  No Mathlib (compiled into `zcdriver`). -/
+closed, which timers are armed, which tasks are pending — and **any number of `async_close()` / `close()`
+calls in progress at once**, each with its own program counter, interleaved at block boundaries.
+What a block *would* emit is part of the block (an arbitrary input: the theorems quantify over it);
+whether it *does* is decided by the generated gates (`Gen.Shutdown.*`).  The places where the close path
+can raise are explicit outcomes (`Out.raised`): `NotRunningException` out of `async_wait_for_start`
+(a close that was waiting for start-up while another close finished; an API call on a done instance) and
+`CancelledError` (the task awaiting `async_close` is cancelled at one of its suspension points).
+No Mathlib (compiled into `zcdriver`). -/
 namespace Zc.Shutdown
 open Zc
+
+/-- exceptions that reach the *caller* of a close / API call -/
+inductive Exc where
+  | notRunning | cancelled
+  deriving DecidableEq, Repr
 
 /-- what can leave the host -/
 inductive Out where
   | send        -- any datagram handed to a transport
   | goodbye     -- the unregister-all datagram (TTL 0 for every registered service)
   | callback    -- ServiceListener / browser handler / lookup listener invoked
+  | raised (e : Exc)   -- an exception delivered to the caller of `async_close` / an API call (not to the loop)
   deriving DecidableEq, Repr
+
+/-- something observable on the network or by a listener (an exception handed back to a caller is not) -/
+def Out.isEmission : Out → Bool
+  | .send | .goodbye | .callback => true
+  | .raised _ => false
 
 structure Browser where
   /-- in `AsyncZeroconf.async_browsers` (so `async_close` cancels it) -/
@@ -28,13 +44,29 @@ structure Browser where
   listening : Bool
   deriving DecidableEq, Repr
 
-/-- progress of `AsyncZeroconf.async_close` -/
-inductive Stage where
-  | idle                          -- not running
-  | unregistering (left : Nat)    -- browsers cancelled, first goodbye out, `left` goodbye sends to go
-  | shutdown                      -- `_close` + `_async_shutdown` done, suspended in `sleep(0)`
-  | closed                        -- returned
+/-- program counter of one `async_close()` / `close()` call -/
+inductive CStage where
+  /-- (async) suspended in `wait_for(async_wait_for_start(), 1)`: the instance had not started yet -/
+  | waitingStart
+  /-- browsers cancelled, registry emptied, first goodbye out, `left` goodbye sends to go -/
+  | unregistering (left : Nat)
+  /-- (sync `close()`) `_close()` ran in the caller's thread, `engine.close()` not yet on the loop -/
+  | doneSet
+  /-- `_async_shutdown` done, suspended in `sleep(0)` -/
+  | shutdown
+  /-- returned normally -/
+  | returned
+  /-- raised to its caller (`NotRunningException`, `CancelledError`) -/
+  | aborted
   deriving DecidableEq, Repr
+
+structure Close where
+  /-- `Zeroconf.close()` from another thread (true) or `AsyncZeroconf.async_close()` (false) -/
+  sync : Bool
+  stage : CStage
+  deriving DecidableEq, Repr
+
+def Close.isReturned (c : Close) : Bool := match c.stage with | .returned => true | _ => false
 
 structure Host where
   /-- `Zeroconf.done` -/
@@ -57,7 +89,13 @@ structure Host where
   probing : Nat
   /-- `_async_broadcast_service` tasks in progress -/
   announcing : Nat
-  stage : Stage
+  /-- every close call made so far, in call order (entries are never removed, so indices are stable) -/
+  closes : List Close
+  deriving DecidableEq, Repr
+
+/-- API calls that need a running instance -/
+inductive Api where
+  | register | lookup
   deriving DecidableEq, Repr
 
 /-- atomic blocks.  Numeric/boolean arguments say what the block would emit / do if nothing gated it. -/
@@ -78,19 +116,26 @@ inductive Block where
   | announceStep (last : Bool)
   /-- `async_request` resumes -/
   | lookupStep (sends : Nat) (finished : Bool)
-  /-- `async_close` entered: wait for start, cancel tracked browsers, `generate_unregister_all_services`, first goodbye -/
-  | closeCall
-  /-- 125 ms later: the next goodbye -/
-  | closeGoodbye
-  /-- `_close` (done := true) and `_async_shutdown` (running cleared, transports closed) -/
-  | closeShutdown
-  /-- after `sleep(0)`: cleanup timer cancelled, waiters notified; `async_close` returns -/
-  | closeFinish
+  /-- the engine finishes starting: endpoints created, `running_event.set()` -/
+  | startUp
+  /-- `async_register_service` / `async_request` called: `async_wait_for_start` first -/
+  | apiCall (k : Api)
+  /-- a new close call.  async: wait for start if needed, cancel tracked browsers; both:
+  `generate_unregister_all_services` + first goodbye -/
+  | closeCall (sync : Bool)
+  /-- close `i`, suspended waiting for start-up, resumes (`timedOut`: by its own 1 s timeout) -/
+  | closeWake (i : Nat) (timedOut : Bool)
+  /-- close `i`, 125 ms later: the next goodbye -/
+  | closeGoodbye (i : Nat)
+  /-- (sync close `i`) `_close()` in the caller's thread: `done := true` -/
+  | closeMarkDone (i : Nat)
+  /-- close `i`: async — `_close` (done := true) and `_async_shutdown`; sync — `_async_shutdown` -/
+  | closeShutdown (i : Nat)
+  /-- close `i` after `sleep(0)`: cleanup timer cancelled, waiters notified; the call returns -/
+  | closeFinish (i : Nat)
+  /-- the task awaiting async close `i` is cancelled at the suspension point it is parked at -/
+  | closeAbort (i : Nat)
   deriving DecidableEq, Repr
-
-def Block.isClose : Block → Bool
-  | .closeCall | .closeGoodbye | .closeShutdown | .closeFinish => true
-  | _ => false
 
 /-- `async_send`: nothing leaves once `done` -/
 def gated (h : Host) (outs : List Out) : List Out := if Gen.Shutdown.send_blocked h.done then [] else outs
@@ -107,6 +152,17 @@ def setTimer (bs : List Browser) (i : Nat) (v : Bool) : List Browser :=
 
 /-- number of goodbye transmissions of `async_unregister_all_services` after the first -/
 def moreGoodbyes : Nat := Gen.registerBroadcasts - 1
+
+def Host.setStage (h : Host) (i : Nat) (sync : Bool) (st : CStage) : Host :=
+  { h with closes := h.closes.set i ⟨sync, st⟩ }
+
+/-- the part of a close between "the instance is running (or we stopped waiting)" and the first suspension
+of `async_unregister_all_services`: cancel tracked browsers (async only), empty the registry into one
+goodbye datagram, transmit it (through the gate) -/
+def closeBody (h : Host) (sync : Bool) : Host × List Out × CStage :=
+  ({ h with browsers := if sync then h.browsers else cancelTracked h.browsers, registry := 0 },
+   if h.registry = 0 then [] else gated h [.goodbye],
+   .unregistering (if h.registry = 0 then 0 else moreGoodbyes))
 
 /-- `none`: the block is not enabled in this state (it cannot occur) -/
 def step (h : Host) : Block → Option (Host × List Out)
@@ -142,31 +198,57 @@ def step (h : Host) : Block → Option (Host × List Out)
   | .lookupStep sends finished =>
     if h.lookups = 0 then none
     else some (if finished then { h with lookups := h.lookups - 1 } else h, gated h (List.replicate sends .send))
-  | .closeCall =>
-    match h.stage with
-    | .idle | .closed =>
-      -- tracked browsers cancelled; registry emptied into one goodbye datagram (if any service)
-      let h1 := { h with browsers := cancelTracked h.browsers, registry := 0 }
-      let out := if h.registry = 0 then [] else gated h [.goodbye]
-      some ({ h1 with stage := match h.stage with
-                | .closed => .closed
-                | _ => .unregistering (if h.registry = 0 then 0 else moreGoodbyes) }, out)
-    | _ => none   -- (a second concurrent close is a different machine; not modelled)
-  | .closeGoodbye =>
-    match h.stage with
-    | .unregistering (k + 1) => some ({ h with stage := .unregistering k }, gated h [.goodbye])
-    | .closed => some (h, gated h [.goodbye])
+  | .startUp =>
+    -- (start-up completing *after* a shutdown would open sockets on a done instance: see notes, not modelled)
+    if h.running || h.done || h.transportsClosed then none else some ({ h with running := true }, [])
+  | .apiCall k =>
+    if Gen.Shutdown.wait_for_start_raises h.done then some (h, [.raised .notRunning])
+    else if !h.running then none   -- would wait for start-up first: not modelled
+    else match k with
+      | .register => some ({ h with probing := h.probing + 1 }, [])
+      | .lookup => some ({ h with lookups := h.lookups + 1 }, [])
+  | .closeCall sync =>
+    if !sync && Gen.Shutdown.close_waits_for_start h.done && !h.running then
+      some ({ h with closes := h.closes ++ [⟨sync, .waitingStart⟩] }, [])
+    else
+      let r := closeBody h sync
+      some ({ r.1 with closes := h.closes ++ [⟨sync, r.2.2⟩] }, r.2.1)
+  | .closeWake i timedOut =>
+    match h.closes[i]? with
+    | some ⟨false, .waitingStart⟩ =>
+      if timedOut then
+        let r := closeBody h false
+        some (r.1.setStage i false r.2.2, r.2.1)
+      else if !h.running && !h.done then none   -- the event it waits for has not been set
+      else if Gen.Shutdown.wait_for_start_raises_after h.running h.done then
+        some (h.setStage i false .aborted, [.raised .notRunning])
+      else
+        let r := closeBody h false
+        some (r.1.setStage i false r.2.2, r.2.1)
     | _ => none
-  | .closeShutdown =>
-    match h.stage with
-    | .unregistering 0 =>
-      some ({ h with done := true, running := false, transportsClosed := true, stage := .shutdown }, [])
-    | .closed => some ({ h with running := false, transportsClosed := true }, [])
+  | .closeGoodbye i =>
+    match h.closes[i]? with
+    | some ⟨sync, .unregistering (k + 1)⟩ => some (h.setStage i sync (.unregistering k), gated h [.goodbye])
     | _ => none
-  | .closeFinish =>
-    match h.stage with
-    | .shutdown => some ({ h with cleanupArmed := false, stage := .closed }, [])
-    | .closed => some ({ h with cleanupArmed := false }, [])
+  | .closeMarkDone i =>
+    match h.closes[i]? with
+    | some ⟨true, .unregistering 0⟩ => some ({ h.setStage i true .doneSet with done := true }, [])
+    | _ => none
+  | .closeShutdown i =>
+    match h.closes[i]? with
+    | some ⟨false, .unregistering 0⟩ =>
+      some ({ h.setStage i false .shutdown with done := true, running := false, transportsClosed := true }, [])
+    | some ⟨true, .doneSet⟩ =>
+      some ({ h.setStage i true .shutdown with running := false, transportsClosed := true }, [])
+    | _ => none
+  | .closeFinish i =>
+    match h.closes[i]? with
+    | some ⟨sync, .shutdown⟩ => some ({ h.setStage i sync .returned with cleanupArmed := false }, [])
+    | _ => none
+  | .closeAbort i =>
+    match h.closes[i]? with
+    | some ⟨false, .waitingStart⟩ | some ⟨false, .unregistering _⟩ | some ⟨false, .shutdown⟩ =>
+      some (h.setStage i false .aborted, [.raised .cancelled])
     | _ => none
 
 def run (h : Host) : List Block → Option (Host × List Out)
@@ -176,46 +258,65 @@ def run (h : Host) : List Block → Option (Host × List Out)
     let (h2, o2) ← run h1 rest
     pure (h2, o1 ++ o2)
 
-/-- `async_close` has returned -/
+/-- some `close()` / `async_close()` call has returned, and the instance is shut -/
 def Closed (h : Host) : Prop :=
-  h.done = true ∧ h.transportsClosed = true ∧ h.cleanupArmed = false ∧ h.stage = .closed
+  h.done = true ∧ h.transportsClosed = true ∧ h.cleanupArmed = false ∧ h.closes.any Close.isReturned = true
 
 instance (h : Host) : Decidable (Closed h) := by unfold Closed; infer_instance
 
-/-- blocks that may be interleaved with a running close: everything except the close's own blocks and the
-completion of a registration (`probeStep true`: registry add + first announcement) -/
-def Block.mid : Block → Bool
-  | .closeCall | .closeGoodbye | .closeShutdown | .closeFinish => false
-  | .probeStep true => false
-  | _ => true
+/-- the flags agree with the program counters of the closes in progress: a close that got as far as the
+shutdown has set `done` and closed the transports; one that returned has also cancelled the cleanup timer -/
+def WF (h : Host) : Prop :=
+  ∀ c ∈ h.closes,
+    (c.stage = .doneSet → h.done = true) ∧
+    (c.stage = .shutdown → h.done = true ∧ h.transportsClosed = true) ∧
+    (c.stage = .returned → h.done = true ∧ h.transportsClosed = true ∧ h.cleanupArmed = false)
 
 def isGoodbye : Out → Bool
   | .goodbye => true
   | _ => false
 
-/-! ### the acceptor used by the correspondence harness
+def count (o : Out → Bool) (l : List Out) : Nat := (l.filter o).length
 
-The harness reads `(done, transports closed, cleanup armed)` from the real objects at the start of every
-block and reports what the block emitted.  `accepts` replays the block through `step` on a host with
-those flags and everything else in flight, with the observed emission as the block's intent: the model
-must allow the block and must emit no less than was observed. -/
+/-- no registration completes (`probeStep true`: registry add + first announcement) — the complement of finding D15 -/
+def Block.noCompletion : Block → Bool
+  | .probeStep true => false
+  | _ => true
+
+/-- blocks that may be interleaved with close `0` without disturbing its three goodbyes: anything — further
+close calls and their goodbyes included — except a completing registration, close `0`'s own blocks, and another
+close reaching the point where it sets `done` -/
+def Block.mid : Block → Bool
+  | .probeStep true => false
+  | .closeShutdown _ | .closeMarkDone _ => false
+  | .closeWake i _ | .closeGoodbye i | .closeFinish i | .closeAbort i => i != 0
+  | _ => true
+
+/-- interleavable around close `0`'s goodbyes: `mid`, and not a goodbye of any close -/
+def Block.mid3 (b : Block) : Bool := b.mid && (match b with | .closeGoodbye _ => false | _ => true)
+
+/-! ### the acceptors used by the correspondence harness -/
 
 inductive Kind where
-  | recv | outq | tc | sched | cleanup | task | close
+  | recv | outq | tc | sched | cleanup | task
   deriving DecidableEq, Repr
 
 def hostOfFlags (done tclosed cleanup afterClose : Bool) (ncb : Nat) : Host :=
   { done := done, running := !tclosed, transportsClosed := tclosed, cleanupArmed := cleanup, registry := 1,
     browsers := ⟨false, false, true, true⟩ :: List.replicate (ncb - 1) ⟨false, false, false, true⟩,
     outq := 1, tc := 1, lookups := 0, probing := 1, announcing := 1,
-    stage := if afterClose then .closed else .idle }
-
-def count (o : Out → Bool) (l : List Out) : Nat := (l.filter o).length
+    closes := if afterClose then [⟨false, .returned⟩] else [] }
 
 def isSendOut : Out → Bool
   | .send | .goodbye => true
-  | .callback => false
+  | _ => false
 
+def isCallbackOut : Out → Bool
+  | .callback => true
+  | _ => false
+
+/-- one observed non-close block: the flags were read from the real objects when it started; the observed
+emission is the block's intent; the model must enable the block and emit no less than was observed -/
 def accepts (k : Kind) (done tclosed rxClosed cleanup afterClose : Bool) (nsend ncb : Nat) : String :=
   -- a host may have several transports (dedicated listen socket + respond socket): `tclosed` = all of them closed (what
   -- `Closed` needs), `rxClosed` = the one this datagram would arrive on; an arrival is judged against the latter
@@ -227,19 +328,53 @@ def accepts (k : Kind) (done tclosed rxClosed cleanup afterClose : Bool) (nsend 
     | .sched => .schedFire 0 nsend
     | .cleanup => .cleanupFire (ncb > 0)
     | .task => .lookupStep nsend false
-    | .close => .closeGoodbye
-  -- generic task / close blocks may send several datagrams: only "some vs none" is compared for them
-  match step (match k with | .task => { h with lookups := 1 } | .close => { h with stage := if afterClose then .closed else .unregistering 1 } | _ => h) b with
+  match step (match k with | .task => { h with lookups := 1 } | _ => h) b with
   | none => "reject:not-enabled"
   | some (_, out) =>
     let ms := count isSendOut out
-    let mc := count (fun o => !isSendOut o) out
+    let mc := count isCallbackOut out
     let sendOk := match k with
-      | .close | .outq => (nsend = 0) || ms > 0
+      | .outq => (nsend = 0) || ms > 0
       | _ => ms = nsend
     let cbOk := match k with
       | .recv | .cleanup => mc = ncb
       | _ => ncb = 0 || !afterClose   -- API-driven callbacks (browser start-up replay) only before close returns
     if !sendOk then "reject:model-silent-but-sent" else if !cbOk then "reject:model-silent-but-called-back" else "ok"
+
+structure Flags where
+  done : Bool
+  tclosed : Bool
+  cleanup : Bool
+  deriving DecidableEq, Repr
+
+def Host.flags (h : Host) : Flags := ⟨h.done, h.transportsClosed, h.cleanupArmed⟩
+
+/-- one real step of one close call, as the harness saw it: the model blocks it amounts to (decided from
+which functions ran inside the step), the registry size `generate_unregister_all_services` found (when it ran),
+how many goodbye datagrams were transmitted, whether the call raised, and the real flags after the step -/
+structure CloseStepObs where
+  blocks : List Block
+  reg : Option Nat
+  goodbyes : Nat
+  raised : Option Exc
+  after : Flags
+  deriving Repr
+
+/-- replay the interleaved steps of all close calls through `run`: every block must be enabled, transmit
+exactly the goodbyes the implementation transmitted, raise exactly when it raised, and leave the same flags -/
+def replayCloses (h : Host) : List CloseStepObs → List String
+  | [] => []
+  | ob :: rest =>
+    let h0 := match ob.reg with | some n => { h with registry := n } | none => h
+    match run h0 ob.blocks with
+    | none => "reject:not-enabled" :: replayCloses h rest
+    | some (h1, out) =>
+      let raisedNow := out.filterMap (fun o => match o with | .raised e => some e | _ => none)
+      let verdict :=
+        if count isGoodbye out != ob.goodbyes then "reject:goodbyes"
+        else if raisedNow != ob.raised.toList then "reject:raise"
+        else if h1.flags != ob.after then "reject:flags"
+        else "ok"
+      verdict :: replayCloses h1 rest
 
 end Zc.Shutdown
